@@ -96,11 +96,28 @@ func genC01(r *h.Rng, tier string, idx int) *h.Plan {
 	}
 	var whens []map[string]interface{}
 	n := r.Range(5, 25)
+	// look-alike mode: patterns that match one event in several ways, with events whose
+	// values differ only in type (1 / "1", true / "true") or not at all - the rule is
+	// evaluated once per way of matching, with exactly those bindings
+	lookalike := r.P(1, 5)
+	lookWhens := []map[string]interface{}{
+		{"readings": map[string]interface{}{"?": "?v"}},
+		{"readings": map[string]interface{}{"?p": "?v"}},
+		{"tags": []interface{}{"?v"}},
+		{"tags": []interface{}{"?"}},
+		{"readings": map[string]interface{}{"?": "?v"}, "tags": []interface{}{"?t"}},
+	}
+	if lookalike {
+		p.Cfg["mode"] = "lookalike"
+	}
 	for i := 0; i < n; i++ {
 		loc := r.Pick(locs)
 		switch r.Weighted([]int{10, 3, 2, 2, 1, 1, 2, 1}) {
 		case 0:
 			w := genWhen(r)
+			if lookalike && r.P(2, 3) {
+				w = h.CloneMap(lookWhens[r.Intn(len(lookWhens))])
+			}
 			whens = append(whens, w)
 			rule := genRuleBody(r, w, false)
 			if r.P(1, 8) {
@@ -144,6 +161,18 @@ func genC01(r *h.Rng, tier string, idx int) *h.Plan {
 		events = append(events, h.GenEventFrom(r, w, o, r.P(1, 4)))
 	}
 	events = append(events, h.GenFact(r, h.GenOpts{Depth: 1}))
+	if lookalike {
+		events = []interface{}{
+			map[string]interface{}{"readings": map[string]interface{}{"kitchen": 1.0, "hall": "1"}},
+			map[string]interface{}{"readings": map[string]interface{}{"a": true, "b": "true", "c": true}, "tags": []interface{}{"x", "y", "z"}},
+			map[string]interface{}{"tags": []interface{}{"x", "y", "z"}},
+			map[string]interface{}{"tags": []interface{}{1.0, 2.0}, "readings": map[string]interface{}{"a": nil, "b": "<nil>"}},
+			h.GenFact(r, h.GenOpts{Depth: 1}),
+		}
+		if p.Cfg["state"] == "linear" {
+			events = append(events, map[string]interface{}{"tags": []interface{}{1.0, "1"}})
+		}
+	}
 	p.Cfg["events"] = events
 	_ = fmt.Sprint
 	return p
